@@ -184,6 +184,7 @@ def Shadow.absOf (sh : Shadow) (o : Opnd) : Option Nat :=
   | .outer k => sh.topAbs[k]?
   | .abs n => some n
   | .loc _ => none
+  | .slot _ => none
 
 /-- invocation events of one action: (closure, node, args text, result text) -/
 def invs (a : ActionRec) : List (String × Nat × String × String) :=
@@ -435,6 +436,102 @@ def holdsC08 (h : History) (tr : ImplTrace) : Verdict := Id.run do
     idx := idx + 1
   return none
 
+/-- integer view of the first argument in an `inv` event's argument text `(a0,a1,…)` -/
+def firstArgInt (args : String) : Int :=
+  let inner := ((args.drop 1).dropEnd 1).toString
+  let first :=
+    if inner.startsWith "(" then (inner.splitOn ")").headD "" ++ ")"
+    else if inner.startsWith "{" then (inner.splitOn "}").headD "" ++ "}"
+    else (inner.splitOn ",").headD "0"
+  ((parseVal first).map Val.toInt).getD 0
+
+/-- how many nodes one template instruction creates (`none`: not statically known) -/
+def instrNodeCount : Instr → Option Nat
+  | .cutoff _ _ | .publish _ _ => some 0
+  | .bind _ _ => some 2
+  | .memoCall _ _ => none
+  | .mapOp (.merge ..) => some 5
+  | .mapOp _ => some 3
+  | .perKey .. => some 4
+  | _ => some 1
+
+/-- C03: once the left-hand side of a bind has changed, no function of a node created by the previous
+run of its closure (nor of closures nested in that run) is invoked again — in the rest of that stabilise
+or ever after — and those nodes are invalid.  Generations are reconstructed from the trace: closure runs
+are logged in order and create consecutive node indices. -/
+def holdsC03 (h : History) (tr : ImplTrace) : Verdict := Id.run do
+  let countable := h.defs.bodies.all fun b => b.2.2.all fun t => t.instrs.all fun i => (instrNodeCount i).isSome
+  if !countable then return none
+  -- lhs-change node ↦ nodes of its current generation
+  let mut gen : List (Nat × List Nat) := []
+  let mut dead : List Nat := []
+  let mut idx := 0
+  let mut known := 0            -- number of nodes created so far
+  for a in h.actions do
+    let rec_ : ActionRec := tr[idx]?.getD default
+    match a with
+    | .stabilise =>
+      let mut next := known
+      for e in rec_.evs do
+        match words e with
+        | "inv" :: fn_at :: rest =>
+          match fn_at.splitOn "@n" with
+          | [f, ns] =>
+            let n := ns.toNat?.getD 0
+            if f.startsWith "b" then
+              -- a bind closure runs: the previous generation (and everything nested in it) dies
+              let bi := (f.drop 1).toString.toNat?.getD 0
+              let arg := firstArgInt ((joinWith " " rest).splitOn "->" |>.headD "()")
+              let old := (gen.lookup n).getD []
+              -- transitive: generations of binds whose change detector is among the dead nodes
+              let mut frontier := old
+              let mut newlyDead : List Nat := []
+              let mut fuel := 1000
+              while !frontier.isEmpty && fuel > 0 do
+                fuel := fuel - 1
+                match frontier with
+                | [] => pure ()
+                | x :: more =>
+                  frontier := more
+                  if !(newlyDead.contains x) then
+                    newlyDead := x :: newlyDead
+                    frontier := frontier ++ ((gen.lookup x).getD [])
+              dead := dead ++ newlyDead
+              match h.defs.bodies.lookup bi with
+              | some (k, alts) =>
+                let t := alts[(emod arg (k : Int)).toNat]?.getD { instrs := [], ret := .abs 0 }
+                let cnt := t.instrs.foldl (fun acc i => acc + (instrNodeCount i).getD 0) 0
+                gen := (n, (List.range cnt).map (· + next)) :: gen.filter (·.1 != n)
+                next := next + cnt
+              | none => pure ()
+          | _ => pure ()
+        | _ => pure ()
+      -- the left-hand side is lower than everything its closure builds, so a node of a generation that dies in
+      -- this stabilise must not have run anywhere in it (before or after the closure re-ran), nor ever later
+      for e in rec_.evs do
+        match words e with
+        | "inv" :: fn_at :: _ =>
+          match fn_at.splitOn "@n" with
+          | [f, ns] =>
+            let n := ns.toNat?.getD 0
+            if dead.contains n && f != "cb" then
+              return some s!"action {idx}: {f}@n{n} ran although the left-hand side of the bind that created n{n} had changed"
+          | _ => pure ()
+        | _ => pure ()
+      -- dead nodes that are still allocated must be invalid
+      if rec_.api == "ok" then
+        for d in dead do
+          match rec_.snapOf d with
+          | some sn => if sn.valid then return some s!"action {idx}: n{d} belongs to a generation whose bind has re-run but is still valid"
+          | none => pure ()
+    | _ => pure ()
+    -- nodes created so far: top-level creations answer `ok #i`; closures create the rest
+    known := match rec_.stats.splitOn "created=" with
+      | [_, r] => ((r.splitOn " ").headD "0").toNat?.getD known
+      | _ => known
+    idx := idx + 1
+  return none
+
 /-- cutoff events of one action: (cutoff id, node, old text, new text, result) -/
 def cuts (a : ActionRec) : List (Nat × Nat × String × String × String) :=
   a.evs.filterMap fun e =>
@@ -596,7 +693,7 @@ def holdsC19 (h : History) (tr : ImplTrace) : Verdict := Id.run do
     match a with
     | .expectPanic cls => expect := some cls
     | .dropAll =>
-      if rec_.api != "ok" then return some s!"action {idx}: dropping the handles and the state answered `{rec_.api}`"
+      if !(rec_.api.startsWith "ok") then return some s!"action {idx}: dropping the handles and the state answered `{rec_.api}`"
     | .stabilise =>
       if !poisoned && !dynamic && !announced then
         let roots := (List.range sh.obs.size).filterMap fun o =>
@@ -661,7 +758,7 @@ def holdsC13 (h : History) (tr : ImplTrace) : Verdict := Id.run do
         else if rec_.api.startsWith "panic" then
           poisoned := some "Stabilising"
     | .dropAll =>
-      if rec_.api != "ok" then return some s!"action {idx}: dropping everything answered `{rec_.api}`"
+      if !(rec_.api.startsWith "ok") then return some s!"action {idx}: dropping everything answered `{rec_.api}`"
     | _ => pure ()
     -- reads after the poisoning
     match poisoned, a with
@@ -687,15 +784,6 @@ def holdsC13 (h : History) (tr : ImplTrace) : Verdict := Id.run do
     | _, _ => pure ()
     idx := idx + 1
   return none
-
-/-- integer view of the first argument in an `inv` event's argument text `(a0,a1,…)` -/
-def firstArgInt (args : String) : Int :=
-  let inner := ((args.drop 1).dropEnd 1).toString
-  let first :=
-    if inner.startsWith "(" then (inner.splitOn ")").headD "" ++ ")"
-    else if inner.startsWith "{" then (inner.splitOn "}").headD "" ++ "}"
-    else (inner.splitOn ",").headD "0"
-  ((parseVal first).map Val.toInt).getD 0
 
 /-- what the program text and the invocation log determine about one expert node -/
 structure XShadow where
@@ -809,11 +897,294 @@ def holdsC14 (h : History) (tr : ImplTrace) : Verdict := Id.run do
     idx := idx + 1
   return none
 
+/-- inverse of `Val.render` for the values that occur in snapshots and reads: ints, maps, pairs of maps -/
+def parseRendered (s : String) : Option Val :=
+  let s := trim s
+  if s.startsWith "({" then
+    -- `({…},{…})`
+    match (((s.drop 1).dropEnd 1).toString).splitOn "},{" with
+    | [a, b] => do
+      let ma ← parsePairs ((a.drop 1).toString)
+      let mb ← parsePairs ((b.dropEnd 1).toString)
+      pure (.pair (.map ma) (.map mb))
+    | _ => none
+  else parseVal s
+
+/-- the map operators of a history, by the top-level ordinal of their output node -/
+def mapOps (h : History) : List (Nat × MapOpK) := Id.run do
+  let mut k := 0
+  let mut out : List (Nat × MapOpK) := []
+  for a in h.actions do
+    match a with
+    | .create (.cutoff _ _) | .create (.publish _ _) => pure ()
+    | .create (.mapOp op) => out := out ++ [(k, op)]; k := k + 1
+    | .create _ => k := k + 1
+    | _ => pure ()
+  return out
+
+def varValue (sh : Shadow) (o : Opnd) : Option Val :=
+  match o with
+  | .outer k => (sh.prog.varOf.lookup k).bind fun v => sh.prog.vars[v]?
+  | _ => none
+
+/-- C15: after every stabilise each in-use observer on an operator output shows the plain function of
+the CURRENT input map(s) — `filterMapSpec`, `ufoldSpecSum`, `mergeSpec'`, `partitionSpec`, the very
+definitions the C15 theorems are about. -/
+def holdsC15 (h : History) (tr : ImplTrace) : Verdict := Id.run do
+  let ops := mapOps h
+  let mut sh := Shadow.init h
+  let mut idx := 0
+  for a in h.actions do
+    let rec_ := tr[idx]?.getD {}
+    sh := sh.step a idx rec_.api
+    match a with
+    | .stabilise =>
+      if rec_.api == "ok" then
+        for o in List.range sh.obs.size do
+          if sh.inUse o then
+            match (sh.obs[o]?.map (·.1) : Option Opnd) with
+            | some (Opnd.outer k) =>
+              match ops.lookup k with
+              | none => pure ()
+              | some op =>
+                let want : Option Val := match op with
+                  | .fm m x => (varValue sh x).map fun v =>
+                      .map (IncrVerif.MapOps.filterMapSpec (opFmFn (h.defs.opParams m)) (asMap v))
+                  | .fold m _ _ x => (varValue sh x).map fun v =>
+                      let p := h.defs.opParams m
+                      .int (IncrVerif.MapOps.ufoldSpecSum (opG p) p.c (asMap v))
+                  | .merge m x y => do
+                      let l ← varValue sh x
+                      let r ← varValue sh y
+                      pure (.map (IncrVerif.MapOps.mergeSpec' (opMergeFn (h.defs.opParams m)) (asMap l) (asMap r)))
+                  | .part m x => (varValue sh x).map fun v =>
+                      let r := IncrVerif.MapOps.partitionSpec (opPartFn (h.defs.opParams m)) (asMap v)
+                      .pair (.map r.1) (.map r.2)
+                match want with
+                | some w =>
+                  let got := (rec_.reads.lookup o).getD "missing"
+                  if got != "ok " ++ w.render then
+                    return some s!"action {idx}: operator output o{o} reads `{got}`, its definition on the current input gives {w.render}"
+                | none => pure ()
+            | _ => pure ()
+    | _ => pure ()
+    idx := idx + 1
+  return none
+
+/-- the input map of an operator, as an association list -/
+def opInput (sh : Shadow) (op : MapOpK) : Option (List (Int × Int) × List (Int × Int)) :=
+  match op with
+  | .fm _ x | .fold _ _ _ x | .part _ x => (varValue sh x).map fun v => (asMap v, [])
+  | .merge _ x y => do pure (asMap (← varValue sh x), asMap (← varValue sh y))
+
+/-- C17: in a stabilise, an operator's user functions are called only for keys whose presence or value
+differs between the input the operator last saw and the current one (for merge: in either input), at
+most once per key and role — except when it (re)initialises or its input is emptied. -/
+def holdsC17 (h : History) (tr : ImplTrace) : Verdict := Id.run do
+  let ops := mapOps h
+  let mut sh := Shadow.init h
+  -- per operator (by output ordinal): the input it last ran on
+  let mut seen : List (Nat × (List (Int × Int) × List (Int × Int))) := []
+  let mut idx := 0
+  for a in h.actions do
+    let rec_ := tr[idx]?.getD {}
+    sh := sh.step a idx rec_.api
+    match a with
+    | .stabilise =>
+      if rec_.api == "ok" then
+        for (k, op) in ops do
+          match sh.topAbs[k]?, opInput sh op with
+          | some outAbs, some cur =>
+            -- the operator node is the conversion node's input
+            let opNode := ((rec_.snapOf outAbs).map (·.ch.headD 0)).getD 0
+            let m := match op with | .fm m _ | .fold m _ _ _ | .merge m _ _ | .part m _ => m
+            let calls := (invs rec_).filterMap fun (f, n, args, _) =>
+              if n == opNode && f.startsWith s!"M{m}." then
+                some ((f.splitOn ".").getD 1 "", firstArgInt args)
+              else none
+            let ran := match rec_.snapOf opNode with
+              | some sn => sn.r + 1 == rec_.statInt "num"
+              | none => false
+            -- once per key and role
+            for c in calls do
+              if (calls.filter (· == c)).length > 1 then
+                return some s!"action {idx}: operator n{opNode} called {c.1} twice for key {c.2}"
+            match seen.lookup k with
+            | some prev =>
+              let full := match op with
+                | .fm .. => cur.1.isEmpty
+                | .fold _ rev _ _ => false && rev
+                | _ => false
+              if !full then
+                let differs (key : Int) : Bool :=
+                  IncrVerif.AMap.lookup prev.1 key != IncrVerif.AMap.lookup cur.1 key
+                  || IncrVerif.AMap.lookup prev.2 key != IncrVerif.AMap.lookup cur.2 key
+                for (role, key) in calls do
+                  if !(differs key) then
+                    return some s!"action {idx}: operator n{opNode} called {role} for key {key}, which did not change"
+            | none => pure ()
+            if ran then seen := (k, cur) :: seen.filter (·.1 != k)
+          | _, _ => pure ()
+    | _ => pure ()
+    idx := idx + 1
+  return none
+
+/-- the per-key operators of a history, by the top-level ordinal of their output node -/
+def perKeyOps (h : History) : List (Nat × (Option CutoffK × Nat × Opnd)) := Id.run do
+  let mut k := 0
+  let mut out : List (Nat × (Option CutoffK × Nat × Opnd)) := []
+  for a in h.actions do
+    match a with
+    | .create (.cutoff _ _) | .create (.publish _ _) => pure ()
+    | .create (.perKey c f x) => out := out ++ [(k, (c, f, x))]; k := k + 1
+    | .create _ => k := k + 1
+    | _ => pure ()
+  return out
+
+/-- C16: after every stabilise the output of a per-key operator is the map obtained by applying the
+user's per-key computation (evaluated from scratch by the reference semantics, with the key's value as
+the per-key input) to the current entries. -/
+def holdsC16 (h : History) (tr : ImplTrace) : Verdict := Id.run do
+  let ops := perKeyOps h
+  let mut sh := Shadow.init h
+  let mut idx := 0
+  for a in h.actions do
+    let rec_ := tr[idx]?.getD {}
+    sh := sh.step a idx rec_.api
+    match a with
+    | .stabilise =>
+      if rec_.api == "ok" then
+        for o in List.range sh.obs.size do
+          if sh.inUse o then
+            match (sh.obs[o]?.map (·.1) : Option Opnd) with
+            | some (Opnd.outer k) =>
+              match ops.lookup k with
+              | some (cut, fam, x) =>
+                if cut != some .always then
+                  match varValue sh x with
+                  | some v =>
+                    let tmpl := (h.defs.pks.lookup fam).getD { instrs := [], ret := .loc 0 }
+                    let entries := (asMap v).map fun (key, val) =>
+                      (key, denoteTemplateWith sh.prog denoteFuel tmpl (.int key) [some (.int val)])
+                    if entries.all (·.2.isSome) then
+                      let want := Val.map (entries.filterMap fun (key, r) => r.map fun w => (key, w.toInt))
+                      let got := (rec_.reads.lookup o).getD "missing"
+                      if got != "ok " ++ want.render then
+                        return some s!"action {idx}: per-key operator output o{o} reads `{got}`, the per-key computation on the current entries gives {want.render}"
+                  | none => pure ()
+              | none => pure ()
+            | _ => pure ()
+    | _ => pure ()
+    idx := idx + 1
+  return none
+
+/-- C12: nothing leaks.  After every action every node the implementation still holds is reachable, through
+the strong references it reports (`refs=`), from something the program or the engine legitimately holds:
+a handle not yet dropped, an observer that is in use or not yet unlinked, a variable, a queued node.
+When everything is dropped, nothing stays allocated (`live=0`).  (Histories with shared cells are skipped:
+what a cell holds is not visible in the trace.) -/
+def holdsC12 (h : History) (tr : ImplTrace) : Verdict := Id.run do
+  let usesSlots := h.defs.bodies.any (fun b => b.2.2.any fun t => t.instrs.any fun i =>
+      match i with | .publish _ _ => true | _ => false)
+  let mut sh := Shadow.init h
+  -- reference counts of top-level handles by creation index
+  let mut handles : List Nat := []
+  let mut varNodes : List (Nat × Nat) := []       -- var ↦ node
+  let mut varDropped : List Nat := []              -- vars whose handle is gone …
+  let mut varBroken : List Nat := []               -- … and whose cycle was broken by a stabilise
+  let mut obsEnded : List Nat := []                -- observers ended, still to be unlinked by a stabilise
+  let mut obsGone : List Nat := []
+  let mut idx := 0
+  for a in h.actions do
+    let rec_ := tr[idx]?.getD {}
+    sh := sh.step a idx rec_.api
+    match a with
+    | .create i =>
+      match rec_.api.splitOn "#" with
+      | [_, n] =>
+        let n := n.toNat?.getD 0
+        handles := n :: handles
+        match i with
+        | .var _ => varNodes := (varNodes.length, n) :: varNodes
+        | _ => pure ()
+      | _ => pure ()
+    | .dropHandle n => match sh.absOf n with
+      | some k => if rec_.api == "ok" then handles := handles.erase k
+      | none => pure ()
+    | .dropVar v => if rec_.api == "ok" then varDropped := v :: varDropped
+    | .dropObs o | .disallow o =>
+      if !(sh.inUse o) && !(obsGone.contains o) then obsEnded := o :: obsEnded
+    | .stabilise =>
+      if rec_.api == "ok" then
+        varBroken := varDropped
+        obsGone := obsGone ++ obsEnded
+        obsEnded := []
+    | .dropAll =>
+      if rec_.api != "ok live=0" && rec_.api != "ok live=cycle" then
+        return some s!"action {idx}: after dropping every handle and the state: `{rec_.api}`"
+    | _ => pure ()
+    if !usesSlots && !rec_.snaps.isEmpty && (words rec_.stats).contains "status=NotStabilising" then
+      let obsRoots := (List.range sh.obs.size).filterMap fun o =>
+        if obsGone.contains o then none
+        else match sh.obs[o]? with
+          | some (n, c, _, created) =>
+            -- a created observer whose last handle is dropped before its first stabilise is released at once
+            if c == 0 && !(obsEnded.contains o) then none
+            else if c == 0 && created ≥ idx then none
+            else sh.absOf n
+          | none => none
+      let varRoots := varNodes.filterMap fun (v, n) => if varBroken.contains v then none else some n
+      let queued := (rec_.heap.splitOn "n").filterMap fun t =>
+        (t.takeWhile Char.isDigit).toString.toNat?
+      let roots := handles ++ obsRoots ++ varRoots ++ queued
+      let reach := cone (rec_.snaps.map fun sn => { sn with ch := sn.refs }) roots
+      for sn in rec_.snaps do
+        if !(reach.contains sn.id) then
+          return some s!"action {idx}: n{sn.id} ({sn.kind}) is still allocated although nothing holds it"
+    idx := idx + 1
+  return none
+
+/-- C20: a memoised call at top level returns the stored node without running the function iff that node
+is still allocated; otherwise the function runs (once) and the result is a fresh node.  Nodes it returns
+stay valid whatever binds re-run. -/
+def holdsC20 (h : History) (tr : ImplTrace) : Verdict := Id.run do
+  let mut stored : List ((Nat × Int) × Nat) := []      -- (memo, key) ↦ node of the last top-level call
+  let mut made : List Nat := []
+  let mut idx := 0
+  for a in h.actions do
+    let rec_ : ActionRec := tr[idx]?.getD default
+    let pre : ActionRec := if idx == 0 then default else tr[idx - 1]?.getD default
+    match a with
+    | .create (.memoCall m key) =>
+      match rec_.api.splitOn "#" with
+      | [_, n] =>
+        let n := n.toNat?.getD 0
+        let invoked := rec_.evs.any fun e => e == s!"note memo m{m} invoked {key}"
+        match stored.lookup (m, key) with
+        | some old =>
+          let alive := (pre.snapOf old).isSome
+          if alive && (invoked || n != old) then
+            return some s!"action {idx}: memo m{m}({key}): n{old} is still allocated but the call returned n{n} (function invoked: {invoked})"
+          if !alive && !invoked then
+            return some s!"action {idx}: memo m{m}({key}): the stored node n{old} is gone but the function was not invoked"
+        | none => pure ()
+        stored := ((m, key), n) :: stored.filter (·.1 != (m, key))
+        made := n :: made
+      | _ => pure ()
+    | _ => pure ()
+    for n in made do
+      match rec_.snapOf n with
+      | some sn => if !sn.valid then return some s!"action {idx}: memoised node n{n} became invalid"
+      | none => pure ()
+    idx := idx + 1
+  return none
+
 def evalProp (prop : String) (h : History) (tr : ImplTrace) : Verdict :=
   match prop with
   | "WF" => wellFormed h
   | "C01" => holdsC01 h tr
   | "C02" => holdsC02 h tr
+  | "C03" => holdsC03 h tr
   | "C04" => holdsC04 h tr
   | "C05" => holdsC05 h tr
   | "C06" => holdsC06 h tr
@@ -822,7 +1193,12 @@ def evalProp (prop : String) (h : History) (tr : ImplTrace) : Verdict :=
   | "C10" => holdsC10 h tr
   | "C09" => holdsC09 h tr
   | "C11" => holdsC11 h tr
+  | "C12" => holdsC12 h tr
   | "C13" => holdsC13 h tr
+  | "C15" => holdsC15 h tr
+  | "C16" => holdsC16 h tr
+  | "C17" => holdsC17 h tr
+  | "C20" => holdsC20 h tr
   | "C14" => holdsC14 h tr
   | "C19" => holdsC19 h tr
   | _ => some "unknown-property"
